@@ -13,7 +13,9 @@
 (*                   (FormsAll) and all lists of length 3 over Forms3      *)
 (*                                                                         *)
 (* Index forms (Types.tla, "GETELEMENTPTR"): integers of width 1, 8, 32,   *)
-(* 64, 128; zeroinitializer, undef, poison as scalar, fixed and scalable   *)
+(* 64, 128 spelled in decimal, hexadecimal (u0x), with leading zeros and   *)
+(* negative; foldable integer constant expressions (trunc, zext, add, sub  *)
+(* of literals); zeroinitializer, undef, poison as scalar, fixed, scalable *)
 (* vector; splat and non-splat constant vectors, constant vectors with an  *)
 (* undef or constant-expression element; constant expressions              *)
 (* (ptrtoint, add of ptrtoint, vector ptrtoint); instruction operands      *)
@@ -82,6 +84,14 @@ FormsAll ==
   \cup { Idx("cexpr", 64, -1, 0, FALSE), Idx("cexpr", 64, -1, 2, FALSE), Idx("cexpr2", 64, -1, 0, FALSE) }
   \cup { Idx("ssa", 64, -1, 0, FALSE), Idx("ssa", 32, -1, 0, FALSE), Idx("ssa", 64, -1, 2, FALSE), Idx("ssa", 64, -1, 2, TRUE) }
   \cup { InRange(Idx("int", 32, 1, 0, FALSE)), InRange(Idx("int", 64, 0, 0, FALSE)) }
+     \* other spellings of integer literals: hexadecimal, leading zeros, negative (arrays only)
+  \cup { Spelled(Idx("int", w, 1, 0, FALSE), sp) : w \in {32, 64}, sp \in {"hex", "lead0"} }
+  \cup { Idx("int", 64, -1, 0, FALSE), Idx("int", 32, -1, 0, FALSE) }
+  \cup { Spelled(Idx("splat", 32, 1, 2, FALSE), sp) : sp \in {"hex", "lead0"} }
+     \* integer constant expressions LLVM folds while parsing: they carry a value and may select
+     \* a struct field (i32) like a literal
+  \cup { Spelled(Idx("cfold", 32, 1, 0, FALSE), sp) : sp \in {"trunc", "add", "sub"} }
+  \cup { Spelled(Idx("cfold", 32, 0, 0, FALSE), "add"), Spelled(Idx("cfold", 64, 1, 0, FALSE), "zext") }
 
 \* The forms of the lists of length 3: the plainest form of every category.  The set is the
 \* same in both tiers and, like FormsAll and Bases, closed under the simplification steps
